@@ -257,6 +257,21 @@ func (r *Report) Finish() int {
 		funcs = append(funcs, f)
 	}
 	sort.Strings(funcs)
+	if len(r.Explain) == 0 {
+		r.Explain = append(r.Explain, "Static analysis of /repo/teamserver (type-checked program, SSA, CFG, call graph) deciding necessary structural conditions of the property; not a proof of the behaviour. Rules decided on this run:")
+		for _, name := range rules {
+			r.Explain = append(r.Explain, name+": "+r.RuleDoc[name]+".")
+		}
+	}
+	if r.Trusted == nil {
+		r.Trusted = []string{"go/types type checker", "golang.org/x/tools v0.29.0 go/ssa, go/cfg, go/callgraph (CHA)", "documented behaviour of the Go standard library and third-party packages", "tables under /verif/tables (knowledge obtained by reading, each entry with its reason)"}
+	}
+	if r.Assume == nil {
+		r.Assume = []string{"start-up singletons (logr.LogrInstance, logger, t.DB, t.Profile) are set before any listener exists", "reflection, unsafe and cgo bodies are opaque", "claims are necessary conditions: a tree may satisfy every rule and still violate the behavioural property"}
+	}
+	if r.NotDecided == nil {
+		r.NotDecided = []string{}
+	}
 	cov := map[string]any{
 		"explanation":         strings.Join(r.Explain, " "),
 		"not_decided":         r.NotDecided,
